@@ -62,9 +62,13 @@ struct dynamic_array {
 
     auto operator=(dynamic_array&& other) noexcept -> dynamic_array&
     {
-        _ptr   = etl::exchange(other._ptr, nullptr);
-        _size  = etl::exchange(other._size, etl::size_t(0));
-        _alloc = etl::exchange(other._alloc, Allocator{});
+        if (this != &other) {
+            etl::ranges::destroy(*this);
+            etl::allocator_traits<Allocator>::deallocate(_alloc, _ptr, size());
+            _ptr   = etl::exchange(other._ptr, nullptr);
+            _size  = etl::exchange(other._size, etl::size_t(0));
+            _alloc = etl::exchange(other._alloc, Allocator{});
+        }
         return *this;
     }
 
